@@ -1142,7 +1142,7 @@ func (s *Session) genReplayTest(u *Unit, o *Obligation, mv map[string]string) (s
 	if isConv && srcB != nil && dstB != nil && recvExpr == "" {
 		dt := goTypeName(dstB.elem)
 		st := goTypeName(srcB.elem)
-		fmt.Fprintf(&sb, "\tvar depRuns [2][]%s\n\tfor rep := 0; rep < 2; rep++ {\n", dt)
+		fmt.Fprintf(&sb, "\tvar depRuns [2][]%s\n\tdepPanicked := false\n\tfor rep := 0; rep < 2; rep++ {\n", dt)
 		for _, l := range strings.Split(strings.TrimRight(memDecl.String()+pre.String(), "\n"), "\n") {
 			sb.WriteString("\t" + l + "\n")
 		}
@@ -1151,10 +1151,10 @@ func (s *Session) genReplayTest(u *Unit, o *Obligation, mv map[string]string) (s
 		}
 		fmt.Fprintf(&sb, "\t\tfor i := range p_src.data {\n\t\t\tp_src.data[i] = verifSpecial[%s](i)\n\t\t}\n", st)
 		fmt.Fprintf(&sb, "\t\tfor i := range p_dst.data {\n\t\t\tp_dst.data[i] = %s(3 + 4*rep)\n\t\t}\n", dt)
-		sb.WriteString("\t\tfunc() {\n\t\t\tdefer func() { recover() }()\n\t\t\t_ = " + call + "\n\t\t}()\n")
+		sb.WriteString("\t\tfunc() {\n\t\t\tdefer func() {\n\t\t\t\tif recover() != nil {\n\t\t\t\t\tdepPanicked = true\n\t\t\t\t}\n\t\t\t}()\n\t\t\t_ = " + call + "\n\t\t}()\n")
 		fmt.Fprintf(&sb, "\t\tdepRuns[rep] = append([]%s(nil), p_dst.data...)\n\t}\n", dt)
 		sb.WriteString("\tdepN := len(depRuns[0])\n\tif len(p_src.data) < depN {\n\t\tdepN = len(p_src.data)\n\t}\n")
-		sb.WriteString("\tfor k := 0; k < depN && k < len(depRuns[1]); k++ {\n\t\tif verifSample(depRuns[0][k]) != verifSample(depRuns[1][k]) {\n")
+		sb.WriteString("\tfor k := 0; k < depN && k < len(depRuns[1]) && !depPanicked; k++ {\n\t\tif verifSample(depRuns[0][k]) != verifSample(depRuns[1][k]) {\n")
 		sb.WriteString("\t\t\tfmt.Printf(\"REPLAY-CONFIRMED: destination position %d (source sample %v) ends as %v or %v depending on the previous destination content: the result does not depend only on the source sample\\n\", k, verifSpecial[" + st + "](k), depRuns[0][k], depRuns[1][k])\n\t\t\tbreak\n\t\t}\n\t}\n")
 	}
 	// verdict by obligation kind
